@@ -12,8 +12,11 @@
 //     family flush callback and the follower's answer all feed Ack), values >= -1;
 //   - SetConsumedSeq(s) only with own ack <= s <= appended (ResetReplicaIndex(ack+1) of the local
 //     replicator, the re-synchronisation of the remote replicator);
-//   - FanOutQueue.SetAppendedSeq(s) only forward (s > appended): the follower reset is sent when the
-//     follower is behind the leader's ack, the leader reset when the follower is ahead of the leader;
+//   - FanOutQueue.SetAppendedSeq(s): today's leader only produces forward resets (the follower reset is
+//     sent when the follower is behind the leader's ack, the leader reset when the follower is ahead of
+//     the leader); the interface and the follower's Reset RPC accept any index, so TestGroupHistory and
+//     TestGroupIndexReset draw targets below / at / above the queue ack (reset_test.go), the other
+//     machines stay forward only;
 //   - Sync followed by Queue().GC() from the expiry ticker (also generated separately);
 //   - StopConsumerGroup only for a group that IsEmpty() (partition.IsExpire), re-creation by
 //     name afterwards (BuildReplicaForLeader on the next write stream), reopen = Close + NewFanOutQueue;
@@ -172,11 +175,19 @@ type world struct {
 	faults   bool // the machine also lets the creation of page files fail once (the caller retries)
 	ntParked bool // a parked consumer was woken by an append after its group's position was changed by another role
 	ntFault  bool // an append failed in the creation of an index/data page and the retry succeeded
+
+	// reset_test.go
+	backReset  bool // index resets in every direction (below / at / above the queue ack), not only forward
+	gcRace     bool // the machine also runs GC with a racing reset + append started while GC unmaps an index page
+	qackBySync bool // the queue ack was last moved by a Sync (not by an index reset)
+	ntBack     bool // a reset below a queue ack that Sync had moved was followed by an append
+	ntRace     bool // the racing actor reset into the index page GC was unmapping
 }
 
 // machineMode selects the extra operation classes of a history (see the tests that set them).
 type machineMode struct {
 	createRace, parked, faults bool
+	backReset, gcRace          bool
 }
 
 func (w *world) logf(format string, args ...any) {
@@ -606,6 +617,7 @@ func (w *world) sync() {
 		}
 		if cand > w.qack {
 			w.qack = cand
+			w.qackBySync = true
 			w.class("sync-moved-queue-ack")
 		}
 	}
@@ -811,7 +823,8 @@ func (w *world) opReopen() {
 	w.logf("reopen -> %s", w.modelString())
 }
 
-// opSetAppended is the explicit index reset (forward only, see the package comment).
+// opSetAppended is the explicit index reset (any direction; the callers of this file draw forward
+// targets only, reset_test.go draws targets below / at / above the queue ack).
 func (w *world) opSetAppended(s int64) {
 	for _, g := range w.groups {
 		if !g.open {
@@ -824,6 +837,7 @@ func (w *world) opSetAppended(s int64) {
 		g.consumed, g.ack = s, s
 	}
 	w.resetNow = true
+	w.qackBySync = false
 	w.class("set-appended-seq")
 	w.logf("setAppendedSeq %d", s)
 }
@@ -831,6 +845,10 @@ func (w *world) opSetAppended(s int64) {
 func (w *world) opReset() {
 	if rapid.IntRange(0, 2).Draw(w.t, "resetGate") != 0 {
 		w.t.Skip("reset throttled")
+	}
+	if w.backReset {
+		w.opResetAnywhere() // reset_test.go: targets below / at / above the queue ack, then an episode
+		return
 	}
 	var s int64
 	if rapid.IntRange(0, 3).Draw(w.t, "resetFar") == 0 {
@@ -905,10 +923,6 @@ func (w *world) catchUpAll(maxBehind int) bool {
 
 // ---- the state machine -------------------------------------------------------------------------
 
-func runHistory(t *rapid.T, test string, thorough, heavy bool) {
-	runHistoryMode(t, test, thorough, heavy, machineMode{})
-}
-
 func runHistoryMode(t *rapid.T, test string, thorough, heavy bool, mode machineMode) {
 	createRace := mode.createRace
 	root, err := os.MkdirTemp("", "c06-")
@@ -921,6 +935,7 @@ func runHistoryMode(t *rapid.T, test string, thorough, heavy bool, mode machineM
 		msgs: map[int64]msg{}, groups: map[string]*grp{}, classes: map[string]int{},
 		universe: []string{"1", "2", "3", "4"}, // production names groups by node id
 		thorough: thorough, heavy: heavy, createRace: createRace, parked: mode.parked, faults: mode.faults,
+		backReset: mode.backReset && !heavy, gcRace: mode.gcRace && !heavy,
 	}
 	defer func() {
 		if w.fq != nil {
@@ -1008,6 +1023,16 @@ func runHistoryMode(t *rapid.T, test string, thorough, heavy bool, mode machineM
 			actions["faultyBigAppend3"] = step(w.opFaultyBigAppend)
 		}
 	}
+	if w.gcRace {
+		// TestGroupIndexReset: more resets (every direction) and GC racing a reset + append
+		for _, k := range []string{"resetAnywhere", "resetAnywhere2", "resetAnywhere3"} {
+			actions[k] = step(w.opResetAnywhere)
+		}
+		for _, k := range []string{"gcRace", "gcRace2", "gcRace3"} {
+			actions[k] = step(w.opGCRace)
+		}
+		actions["catchUpAll2"] = step(w.opCatchUpAll)
+	}
 	if heavy {
 		delete(actions, "pause") // a paused group pins the queue ack until the next reopen
 		actions["bigAppend"] = step(w.opBigAppend)
@@ -1074,12 +1099,15 @@ func runHistoryMode(t *rapid.T, test string, thorough, heavy bool, mode machineM
 		nonTrivial = w.ntParked
 	case mode.faults && !heavy:
 		nonTrivial = w.ntFault
+	case w.gcRace:
+		nonTrivial = w.ntBack || w.ntRace
 	}
 	ev.Case(test, strings.Join(w.ops, ";"), nonTrivial, nil,
 		map[string]any{"history": w.ops, "final": w.modelString(),
 			"gc_removed_page_with_different_acks": w.ntGC, "reopen_with_positions": w.ntReopen, "interleaved_pair": w.ntPair,
 			"sync_inside_reopen_window_of_lagging_group": w.ntCreate, "parked_consumer_woken_after_position_change": w.ntParked,
-			"append_failed_at_page_creation_then_retried": w.ntFault})
+			"append_failed_at_page_creation_then_retried": w.ntFault,
+			"reset_below_synced_queue_ack_then_append": w.ntBack, "gc_raced_by_reset_into_the_collected_page": w.ntRace})
 }
 
 func (w *world) anyKnownShape() bool {
@@ -1096,7 +1124,9 @@ func TestGroupHistory(t *testing.T) {
 	thorough := os.Getenv("VERIF_TIER") == "thorough"
 	installPages()
 	defer uninstallPages()
-	rapid.Check(t, func(t *rapid.T) { runHistory(t, "TestGroupHistory", thorough, false) })
+	rapid.Check(t, func(t *rapid.T) {
+		runHistoryMode(t, "TestGroupHistory", thorough, false, machineMode{backReset: true})
+	})
 }
 
 // TestGroupHistoryRollOver: the same machine plus messages of tens of MiB (data-page roll-over;
